@@ -55,6 +55,19 @@ CHECKS["C14"] = dict(engine="E5", technique="runtime monitoring: instrumented ha
              text="Exploration of resume modes, pre-existing histories (including an earlier instance of the same name), multi-writer bursts while the closure sleeps, foreign-context noise and a second handler; the closure's outputs name the frame it saw and a per-instance counter, so exactly-once / order / no-self-feed / env persistence become sequence comparisons.",
              note=E5_NOTE, ref="§7 E5, §8 C14")
 
+CHECKS["C15"] = dict(engine="E5", technique="runtime monitoring: generated handler programs on a real serve process; per-trigger trace specification over the global frame log plus CAS reads",
+             text="Exploration of handler script shapes (explicit appends with every flag, return value types, suffix/ttl options, failure positions and kinds) with a canary handler as progress witness; checks order, stamps, context, TTLs, content and all-or-nothing per call.",
+             note=E5_NOTE, ref="§7 E5, §8 C15")
+CHECKS["C16"] = dict(engine="E5", technique="runtime monitoring: lifecycle automaton over the recorded frame log; announce/subscribe race forced with a delay hook at the handler task's start",
+             text="Exploration of register / replace / invalid / unregister / failing-trigger sequences on several names and contexts with a client that triggers the moment it sees .registered while the handler task is delayed 0-20 ms before subscribing.",
+             note=E5_NOTE, ref="§7 E5, §8 C16")
+CHECKS["C18"] = dict(engine="E5", technique="runtime monitoring: generator trace specification (start recv* stop)* over the recorded frame log; duplex exactly-once/in-order token check",
+             text="Exploration of string-producing generator expressions over several lifecycles, refused spawns and duplex input interleaved with unrelated traffic; any panic of a generator thread is a violation because only in-quantifier expressions are generated.",
+             note=E5_NOTE, ref="§7 E5, §8 C18")
+CHECKS["C19"] = dict(engine="E5", technique="runtime monitoring: command-call trace specification over the recorded frame log with argument-tagged outputs and overlapping calls",
+             text="Exploration of define / redefine / invalid-define / call sequences and bursts of overlapping calls; every output embeds the call's argument, the definition's tag and an isolation probe, so stamp mix-ups, stale definitions, state leaks, duplicate or missing terminal events are set/sequence comparisons.",
+             note=E5_NOTE, ref="§7 E5, §8 C19")
+
 NOT_YET = {
 }
 
